@@ -71,6 +71,28 @@ func updateTargetDurationInM3u8(content []byte, currDuration int) ([]byte, error
 	return content, nil
 }
 
+// getNextMediaSeqInM3u8
+//
+// @param content 传入m3u8文件内容
+//
+// @return 紧接在m3u8列表中最后一个分片之后的分片序号，也即EXT-X-MEDIA-SEQUENCE的值加上列表中的分片数量
+func getNextMediaSeqInM3u8(content []byte) (int, error) {
+	const tag = "#EXT-X-MEDIA-SEQUENCE:"
+	l := bytes.Index(content, []byte(tag))
+	if l == -1 {
+		return 0, nazaerrors.Wrap(base.ErrHls)
+	}
+	r := bytes.IndexByte(content[l:], '\n')
+	if r == -1 {
+		return 0, nazaerrors.Wrap(base.ErrHls)
+	}
+	seq, err := strconv.Atoi(string(bytes.TrimSpace(content[l+len(tag) : l+r])))
+	if err != nil {
+		return 0, err
+	}
+	return seq + bytes.Count(content, []byte("#EXTINF:")), nil
+}
+
 // CalcM3u8Duration
 //
 // @param content 传入m3u8文件内容
